@@ -2,10 +2,10 @@ SPECIFICATION LiveSpec
 CONSTANTS
   Acqs <- A3
   W <- W3
-  InitSizes = {2, 3}
-  Sizes = {1, 2, 3}
+  InitSizes = {2}
+  Sizes = {1, 3}
   MaxSet = 1
-  Forces = {1, 2}
+  Forces = {1}
   MaxForce = 1
   MaxOps = 0
   Bug = "none"
